@@ -60,6 +60,9 @@ EXTRA = {
         "openpyxl law (read_sheets rows vs Grid.store), the style index arithmetic incl. i_start / sep_lines / the "
         "transposed swap / widened columns (styled cells of the saved file vs Grid.styleTargets), table_dimensions, "
         "every block read_excel yields (vs Grid.readExcel), the well-formedness and sheet-name predicates",
+        "HARNESS-ONLY: the form in which the tables are passed (list, tuple, generator, iterator, map object, bare "
+        "Table; per sheet in a dict or as the whole argument) is outside the model (a list of sheets of tables); every "
+        "form is expected to give the same workbook — oracle and correspondence run on each",
         "HARNESS-ONLY: 'writing to a path versus a binary stream' has no Lean theorem (the model has no notion of a "
         "target): every case is written to both kinds of target and the saved value grids are compared cell by cell; "
         "the read-back oracle runs on the target drawn for the case",
